@@ -24,7 +24,8 @@ import Pog.Lemmas.SanIdem
     cookie parameters are sent                                                     ✗         `cookie_never_sent_counterexample`, `cookie_never_sent`
     ≥ 2 request media types: query and header arguments are sent                   ✗         `multi_content_drops_query_counterexample`, `multi_content_drops_query`
     an operation-level parameter overrides the path-level one of the same name     full      `path_level_override_former_witness` (F4 repaired), `irParams_no_duplicate_key`
-    a non-string header argument is sent                                           ✗         `nonstr_header_counterexample`
+    an integer / number / boolean header argument is sent in its string form       full      `nonstr_header_former_witness` (F39 repaired),
+                                                                                              `typed_header_is_str`; the entries of `request_fidelity_partial`
     ≥ 2 media types: optional parameters are optional / undeclared path variables work  ✗     `multi_content_optional_is_required_counterexample`,
                                                                                               `multi_content_undeclared_path_var_counterexample`
     a declared parameter named `body` and the JSON body are distinct                ✗         `body_name_collision_counterexample`
@@ -51,8 +52,10 @@ structure StdCall (op : Op) (args : GArgs) : Prop where
   single : isMulti op = false
   /-- only keywords of the signature, every required one present -/
   bound : bindOk (sigOf op) args = true
-  /-- header arguments are strings (httpx rejects anything else), unless optional and left out -/
-  headerStr : ∀ p ∈ op.params, p.loc = .header →
+  /-- well-typed: the argument of a header parameter that is NOT declared integer / number / boolean is a string
+      (httpx rejects anything else), unless optional and left out.  (F39 repaired: a parameter declared integer /
+      number / boolean takes any value - it is sent as `str(value)`.) -/
+  headerStr : ∀ p ∈ op.params, p.loc = .header → p.kind = .plain →
     (argVal args p.ident).isStr = true ∨ (p.required = false ∧ argVal args p.ident = .none)
   /-- not the `multipart/form-data; boundary=…` media-type key that makes the method read an unbound name -/
   bodyKnown : ∀ b mt, op.body = some b → primaryBody b.media = some (mt, .bytes) → GenCode.isInfix mtMultipart mt = false
@@ -98,12 +101,17 @@ theorem headers_ok {op : Op} {args : GArgs} (h : StdCall op args) : headerValues
       subst hes
       rw [List.all_eq_true]
       intro e he
-      obtain ⟨p, hp, hpl, rfl, hreq⟩ := (mem_entries_iff op args .header toS_header e).mp he
-      rcases h.headerStr p hp hpl with hs | ⟨hr, hn⟩
-      · exact hs
-      · rcases hreq with hreq | hreq
-        · rw [hr] at hreq; cases hreq
-        · exact absurd hn hreq
+      obtain ⟨p, hp, hpl, rfl, hreq⟩ := (mem_headerEntries_iff op args e).mp he
+      cases hk : p.kind with
+      | plain =>
+        simp only [strValue]
+        rcases h.headerStr p hp hpl hk with hs | ⟨hr, hn⟩
+        · exact hs
+        · rcases hreq with hreq | hreq
+          · rw [hr] at hreq; cases hreq
+          · exact absurd hn hreq
+      | num => rfl
+      | bool => rfl
     · cases hes
 
 /-- In the single-media method every `{var}` of the template is a parameter of the method (declared, or added
@@ -159,12 +167,14 @@ theorem exactly_one_request_multi (op : Op) (args : GArgs) (hm : moduleOk op = t
 /-- A `GET /pets/{petId}` with a path-level header, an optional and a required query parameter and a JSON body. -/
 def exOp : Op :=
   ⟨"POST".toList, parsePath "/pets/{petId}/toys".toList,
-   irParams [⟨"X-Trace".toList, .header, false⟩]
-     [⟨"petId".toList, .path, true⟩, ⟨"limit".toList, .query, false⟩, ⟨"sort-by".toList, .query, true⟩],
+   irParams [⟨"X-Trace".toList, .header, false, .plain⟩]
+     [⟨"petId".toList, .path, true, .num⟩, ⟨"limit".toList, .query, false, .num⟩, ⟨"sort-by".toList, .query, true, .plain⟩,
+      ⟨"X-Depth".toList, .header, false, .num⟩],
    some ⟨true, [mtJson]⟩, [⟨.num 200, []⟩]⟩
 
 def exArgs : GArgs :=
-  [("pet_id".toList, .other "7".toList), ("sort_by".toList, .str "name".toList), ("body".toList, .other "B".toList)]
+  [("pet_id".toList, .other "7".toList), ("sort_by".toList, .str "name".toList), ("x_depth".toList, .other "3".toList),
+   ("body".toList, .other "B".toList)]
 
 theorem exOp_stdCall : StdCall exOp exArgs where
   importable := by decide +kernel
@@ -186,7 +196,7 @@ example : buildRequest exOp exArgs = .ok
     { method := "POST".toList,
       path := [.lit "/pets/".toList, .val (.other "7".toList), .lit "/toys".toList],
       query := some [("sort-by".toList, .str "name".toList)],
-      headers := some [],
+      headers := some [("X-Depth".toList, .str "3".toList)],
       body := .json (.other "B".toList) } := by decide +kernel
 
 /-! ## fidelity -/
@@ -212,10 +222,10 @@ theorem request_fidelity_partial (op : Op) (args : GArgs) (h : StdCall op args) 
       (∀ e ∈ r.query.getD [], ∃ p ∈ op.params, p.loc = .query ∧ e = (p.name, argVal args p.ident)) ∧
       -- headers
       (∀ p ∈ op.params, p.loc = .header → (p.required = true ∨ argVal args p.ident ≠ .none) →
-          (p.name, argVal args p.ident) ∈ r.headers.getD []) ∧
+          (p.name, strValue p.kind (argVal args p.ident)) ∈ r.headers.getD []) ∧
       (∀ p ∈ op.params, p.loc = .header → p.required = false → argVal args p.ident = .none →
           ∀ e ∈ r.headers.getD [], e.1 ≠ p.name) ∧
-      (∀ e ∈ r.headers.getD [], ∃ p ∈ op.params, p.loc = .header ∧ e = (p.name, argVal args p.ident)) ∧
+      (∀ e ∈ r.headers.getD [], ∃ p ∈ op.params, p.loc = .header ∧ e = (p.name, strValue p.kind (argVal args p.ident))) ∧
       -- body
       stdBody op args = .ok r.body ∧
       (∀ b k mt, op.body = some b → primaryBody b.media = some (mt, k) →
@@ -226,7 +236,7 @@ theorem request_fidelity_partial (op : Op) (args : GArgs) (h : StdCall op args) 
       (AllSendable op → ∀ p ∈ op.params, argVal args p.ident ≠ .none →
           (p.loc = .path ∧ Piece.val (argVal args p.ident) ∈ r.path) ∨
           (p.loc = .query ∧ (p.name, argVal args p.ident) ∈ r.query.getD []) ∨
-          (p.loc = .header ∧ (p.name, argVal args p.ident) ∈ r.headers.getD [])) := by
+          (p.loc = .header ∧ (p.name, strValue p.kind (argVal args p.ident)) ∈ r.headers.getD [])) := by
   obtain ⟨b, hb, hr⟩ := buildRequest_std h
   -- membership in the two dicts, in terms of declared parameters
   have hq : ∀ e, e ∈ (stdQuery op args).getD [] ↔
@@ -243,29 +253,29 @@ theorem request_fidelity_partial (op : Op) (args : GArgs) (h : StdCall op args) 
       obtain ⟨p, hp, hpl, _⟩ := (mem_entries_iff op args .query toS_query e).mp he
       exact hn ((any_loc_iff op .query toS_query).mpr ⟨p, hp, hpl⟩)
   have hh : ∀ e, e ∈ (stdHeaders op args).getD [] ↔
-      ∃ p ∈ op.params, p.loc = .header ∧ e = (p.name, argVal args p.ident) ∧
+      ∃ p ∈ op.params, p.loc = .header ∧ e = (p.name, strValue p.kind (argVal args p.ident)) ∧
         (p.required = true ∨ argVal args p.ident ≠ .none) := by
     intro e
-    rw [← mem_entries_iff op args .header toS_header e]
+    rw [← mem_headerEntries_iff op args e]
     unfold stdHeaders
     split
     · rfl
     · next hn =>
       simp only [Option.getD_none, List.not_mem_nil, false_iff]
       intro he
-      obtain ⟨p, hp, hpl, _⟩ := (mem_entries_iff op args .header toS_header e).mp he
+      obtain ⟨p, hp, hpl, _⟩ := (mem_headerEntries_iff op args e).mp he
       exact hn ((any_loc_iff op .header toS_header).mpr ⟨p, hp, hpl⟩)
   -- two declared parameters with the same original name are the same entry of `ordered_params`
   have hinj : ∀ p ∈ op.params, ∀ p' ∈ op.params, p'.name = p.name → p'.info = p.info := by
     intro p hp p' hp' hn
     apply ordered_ident_inj h.importable h.single (info_mem_ordered op p' hp') (info_mem_ordered op p hp)
     simp [info_ident, GParam.ident, hn]
-  have habsent : ∀ (loc : GLoc) (es : List (Str × GValue)),
-      (∀ e, e ∈ es → ∃ p ∈ op.params, p.loc = loc ∧ e = (p.name, argVal args p.ident) ∧
+  have habsent : ∀ (loc : GLoc) (val : GParam → GValue) (es : List (Str × GValue)),
+      (∀ e, e ∈ es → ∃ p ∈ op.params, p.loc = loc ∧ e = (p.name, val p) ∧
         (p.required = true ∨ argVal args p.ident ≠ .none)) →
       ∀ p ∈ op.params, p.loc = loc → p.required = false → argVal args p.ident = .none →
         ∀ e ∈ es, e.1 ≠ p.name := by
-    intro loc es hes p hp _ hr hn e he hname
+    intro loc val es hes p hp _ hr hn e he hname
     obtain ⟨p', hp', _, rfl, hreq⟩ := hes e he
     have hi := hinj p hp p' hp' hname
     have hreq' : p'.required = p.required := by
@@ -278,13 +288,13 @@ theorem request_fidelity_partial (op : Op) (args : GArgs) (h : StdCall op args) 
   refine ⟨_, hr, by unfold wire; rw [hr], rfl, rfl, ?_, ?_, ?_, ?_, ?_, ?_, hb, ?_, ?_, ?_⟩
   · intro p hp hpl hreq
     exact (hq _).mpr ⟨p, hp, hpl, rfl, hreq⟩
-  · exact habsent .query _ (fun e he => (hq e).mp he)
+  · exact habsent .query _ _ (fun e he => (hq e).mp he)
   · intro e he
     obtain ⟨p, hp, hpl, rfl, _⟩ := (hq e).mp he
     exact ⟨p, hp, hpl, rfl⟩
   · intro p hp hpl hreq
     exact (hh _).mpr ⟨p, hp, hpl, rfl, hreq⟩
-  · exact habsent .header _ (fun e he => (hh e).mp he)
+  · exact habsent .header _ _ (fun e he => (hh e).mp he)
   · intro e he
     obtain ⟨p, hp, hpl, rfl, _⟩ := (hh e).mp he
     exact ⟨p, hp, hpl, rfl⟩
@@ -355,10 +365,12 @@ theorem optional_none_omitted (op : Op) (args : GArgs) (r : Request) (h : buildR
             · cases h
             · simp only [Except.ok.injEq] at h
               subst h
-              have key : ∀ (loc : GLoc), loc.toS ≠ .path → p.loc = loc →
-                  ∀ e ∈ dictEntries loc.toS (orderedParams op) args, e.1 ≠ p.name := by
-                intro loc hl hpl e he hname
-                obtain ⟨p', hp', _, rfl, hreq⟩ := (mem_entries_iff op args loc hl e).mp he
+              have key : ∀ (loc : GLoc) (val : GParam → GValue) (es : List (Str × GValue)),
+                  (∀ e ∈ es, ∃ p' ∈ op.params, p'.loc = loc ∧ e = (p'.name, val p') ∧
+                    (p'.required = true ∨ argVal args p'.ident ≠ .none)) →
+                  ∀ e ∈ es, e.1 ≠ p.name := by
+                intro loc val es hes e he hname
+                obtain ⟨p', hp', _, rfl, hreq⟩ := hes e he
                 have hi : p'.info = p.info :=
                   ordered_ident_inj hm hs (info_mem_ordered op p' hp') (info_mem_ordered op p hp)
                     (by simp [info_ident, GParam.ident, show p'.name = p.name from hname])
@@ -373,19 +385,19 @@ theorem optional_none_omitted (op : Op) (args : GArgs) (r : Request) (h : buildR
               · intro hl e he
                 simp only [stdQuery] at he
                 split at he
-                · exact key .query toS_query hl e he
+                · exact key .query _ _ (fun e he => (mem_entries_iff op args .query toS_query e).mp he) e he
                 · cases he
               · intro hl e he
                 simp only [stdHeaders] at he
                 split at he
-                · exact key .header toS_header hl e he
+                · exact key .header _ _ (fun e he => (mem_headerEntries_iff op args e).mp he) e he
                 · cases he
 
 /-! ## ✗ cookie parameters -/
 
 /-- `GET /me` with a required cookie parameter `session`. -/
 def exCookie : Op :=
-  ⟨"GET".toList, [.lit "/me".toList], [⟨"session".toList, .cookie, true⟩], none, [⟨.num 200, []⟩]⟩
+  ⟨"GET".toList, [.lit "/me".toList], [⟨"session".toList, .cookie, true, .plain⟩], none, [⟨.num 200, []⟩]⟩
 
 /-- ✗ C04: the cookie argument is accepted by the method and then dropped — the request has no query, no
     headers (in particular no `Cookie`), no body, and the `transport.request` call has no `cookies=` keyword. -/
@@ -399,7 +411,7 @@ theorem cookie_never_sent_counterexample :
     `in: query`, every header entry from one declared `in: header`. -/
 theorem cookie_never_sent (op : Op) (args : GArgs) (r : Request) (h : buildRequest op args = .ok r) :
     (∀ e ∈ r.query.getD [], ∃ p ∈ op.params, p.loc = .query ∧ e = (p.name, argVal args p.ident)) ∧
-    (∀ e ∈ r.headers.getD [], ∃ p ∈ op.params, p.loc = .header ∧ e = (p.name, argVal args p.ident)) := by
+    (∀ e ∈ r.headers.getD [], ∃ p ∈ op.params, p.loc = .header ∧ e = (p.name, strValue p.kind (argVal args p.ident))) := by
   unfold buildRequest at h
   split at h
   · cases h
@@ -435,7 +447,7 @@ theorem cookie_never_sent (op : Op) (args : GArgs) (r : Request) (h : buildReque
               · intro e he
                 simp only [stdHeaders] at he
                 split at he
-                · obtain ⟨p, hp, hpl, rfl, _⟩ := (mem_entries_iff op args .header toS_header e).mp he
+                · obtain ⟨p, hp, hpl, rfl, _⟩ := (mem_headerEntries_iff op args e).mp he
                   exact ⟨p, hp, hpl, rfl⟩
                 · cases he
 
@@ -444,7 +456,7 @@ theorem cookie_never_sent (op : Op) (args : GArgs) (r : Request) (h : buildReque
 /-- `POST /upload` with a required query and a required header parameter and two request media types. -/
 def exMulti : Op :=
   ⟨"POST".toList, [.lit "/upload".toList],
-   [⟨"folder".toList, .query, true⟩, ⟨"X-Token".toList, .header, true⟩], some ⟨true, [mtJson, mtMultipart]⟩,
+   [⟨"folder".toList, .query, true, .plain⟩, ⟨"X-Token".toList, .header, true, .plain⟩], some ⟨true, [mtJson, mtMultipart]⟩,
    [⟨.num 200, []⟩]⟩
 
 /-- ✗ C04: with ≥ 2 request media types the implementation method sends `params=None, headers=None` —
@@ -475,7 +487,7 @@ theorem multi_content_drops_query (op : Op) (args : GArgs) (r : Request) (hm : i
 
 /-- ✗ … and an OPTIONAL parameter of such an operation has no default: leaving it out is a `TypeError`. -/
 theorem multi_content_optional_is_required_counterexample :
-    buildRequest ⟨"POST".toList, [.lit "/upload".toList], [⟨"folder".toList, .query, false⟩],
+    buildRequest ⟨"POST".toList, [.lit "/upload".toList], [⟨"folder".toList, .query, false, .plain⟩],
         some ⟨true, [mtJson, mtMultipart]⟩, [⟨.num 200, []⟩]⟩ [("body".toList, .other "B".toList)]
       = .error .typeError := by
   decide +kernel
@@ -500,8 +512,8 @@ theorem multi_content_undeclared_path_var_counterexample :
     call is sent. -/
 theorem path_level_override_former_witness :
     let op : Op := ⟨"GET".toList, [.lit "/a/".toList, .var "id".toList],
-      irParams [⟨"id".toList, .path, true⟩] [⟨"id".toList, .path, true⟩], none, [⟨.num 200, []⟩]⟩
-    op.params = [⟨"id".toList, .path, true⟩] ∧ moduleOk op = true ∧
+      irParams [⟨"id".toList, .path, true, .plain⟩] [⟨"id".toList, .path, true, .plain⟩], none, [⟨.num 200, []⟩]⟩
+    op.params = [⟨"id".toList, .path, true, .plain⟩] ∧ moduleOk op = true ∧
     buildRequest op [("id_".toList, .str "7".toList)]
       = .ok { method := "GET".toList, path := [.lit "/a/".toList, .val (.str "7".toList)], query := none,
               headers := none, body := .none } := by
@@ -518,20 +530,42 @@ theorem irParams_no_duplicate_key (pl ol : List GParam)
   simp only [List.mem_filter, Bool.not_eq_true', List.any_eq_false, Bool.and_eq_true, beq_iff_eq] at ha
   exact ha.2 b hb
 
-example : ([⟨"id".toList, .path, true⟩, ⟨"id".toList, .query, false⟩] : List GParam).Pairwise
+example : ([⟨"id".toList, .path, true, .plain⟩, ⟨"id".toList, .query, false, .plain⟩] : List GParam).Pairwise
     (fun a b => ¬ (a.name = b.name ∧ a.loc = b.loc)) := by decide
 
-/-- ✗ (every supplied header parameter is sent) an integer-typed header argument is handed to httpx as an
-    `int`; httpx raises `TypeError` and nothing is sent. -/
-theorem nonstr_header_counterexample :
-    buildRequest ⟨"GET".toList, [.lit "/a".toList], [⟨"X-Count".toList, .header, true⟩], none, [⟨.num 200, []⟩]⟩
-      [("x_count".toList, .other "5".toList)] = .error .headerTypeError := by
+/-- (every supplied header parameter is sent)  The FORMER WITNESS of F39: an integer-typed header argument used to be
+    handed to httpx as an `int` (`TypeError`, nothing sent).  Since the repair the headers dict is written with
+    `str(…)` for a parameter declared integer / number (`str(…).lower()` for boolean): the request goes out with the
+    value's string form - and a boolean as `true`. -/
+theorem nonstr_header_former_witness :
+    buildRequest ⟨"GET".toList, [.lit "/a".toList],
+        [⟨"X-Count".toList, .header, true, .num⟩, ⟨"X-Dry".toList, .header, false, .bool⟩], none, [⟨.num 200, []⟩]⟩
+      [("x_count".toList, .other "5".toList), ("x_dry".toList, .other "True".toList)]
+      = .ok { method := "GET".toList, path := [.lit "/a".toList], query := none,
+              headers := some [("X-Count".toList, .str "5".toList), ("X-Dry".toList, .str "true".toList)],
+              body := .none } := by
+  decide +kernel
+
+/-- The repair in general: whatever the caller passes for a header parameter declared integer / number / boolean, the
+    value written into the headers dict is a `str` - httpx's `Header value must be str or bytes` cannot be raised for
+    it. -/
+theorem typed_header_is_str (k : PKind) (v : GValue) (hk : k ≠ .plain) : (strValue k v).isStr = true := by
+  cases k with
+  | plain => exact absurd rfl hk
+  | num => rfl
+  | bool => rfl
+
+/-- What remains of the class: a NON-string value for a header parameter that is not declared integer / number /
+    boolean (an ill-typed call - `StdCall.headerStr` excludes it) is still rejected by httpx. -/
+theorem nonstr_value_for_string_header_witness :
+    buildRequest ⟨"GET".toList, [.lit "/a".toList], [⟨"X-Name".toList, .header, true, .plain⟩], none, [⟨.num 200, []⟩]⟩
+      [("x_name".toList, .other "5".toList)] = .error .headerTypeError := by
   decide +kernel
 
 /-- ✗ (a body whose content type …) a declared parameter named `body` takes the place of the JSON body
     parameter: its value is sent in the query AND as the JSON body. -/
 theorem body_name_collision_counterexample :
-    buildRequest ⟨"POST".toList, [.lit "/a".toList], [⟨"body".toList, .query, true⟩], some ⟨true, [mtJson]⟩,
+    buildRequest ⟨"POST".toList, [.lit "/a".toList], [⟨"body".toList, .query, true, .plain⟩], some ⟨true, [mtJson]⟩,
         [⟨.num 200, []⟩]⟩ [("body".toList, .str "Q".toList)]
       = .ok { method := "POST".toList, path := [.lit "/a".toList], query := some [("body".toList, .str "Q".toList)],
               headers := none, body := .json (.str "Q".toList) } := by
